@@ -168,7 +168,7 @@ fn end_of_life(vi: usize, v: &V, var: &str, w: &mut String) {
     writeln!(w, "            drop(u);").unwrap();
     writeln!(w, "        }}").unwrap();
     writeln!(w, "        chk!(all_dropped_once(), \"C06: at the end of the record's life some stored value was not destroyed exactly once\");").unwrap();
-    writeln!(w, "        chk!(unsafe {{ ZD_CREATED == ZD_DROPPED }}, \"C06: zero-size droppable values created and destroyed differ in number\");").unwrap();
+    writeln!(w, "        chk!(unsafe {{ ZD_CREATED == ZD_DROPPED }}, \"C06/C07: zero-size droppable values created and destroyed differ in number (one was destroyed twice, read after it was moved out, or leaked)\");").unwrap();
 }
 
 fn gen_c04(vi: usize, v: &V, l_writes: usize, w: &mut String) {
@@ -496,8 +496,9 @@ fn main() {
     let mut dispatch = String::new();
     let l_writes: usize = env::var("KGEN_WRITES").ok().and_then(|s| s.parse().ok()).unwrap_or(2);
     writeln!(index, "# definition\ttier\tharness\tkind\tvariants").unwrap();
+    let skip: Vec<String> = env::var("KGEN_SKIP").unwrap_or_default().split(',').filter(|x| !x.is_empty()).map(|x| x.to_string()).collect();
     for def in family() {
-        if def.tier == "genobl" {
+        if def.tier == "genobl" || skip.iter().any(|x| x == def.name) {
             continue;
         }
         let d = build(&def);
@@ -592,6 +593,7 @@ fn main() {
     }
     println!("cargo:rerun-if-changed=build.rs");
     println!("cargo:rerun-if-env-changed=KGEN_WRITES");
+    println!("cargo:rerun-if-env-changed=KGEN_SKIP");
     println!("cargo:rerun-if-env-changed=KGEN_INDEX_OUT");
     println!("cargo:rerun-if-changed=/repo/truc/src");
     println!("cargo:rerun-if-changed=/repo/truc_runtime/src");
